@@ -63,6 +63,18 @@ ServerCases ==
   [fam : {"server"}, carrier : {"registry", "inproc", "http"}, kind : {"unary", "stream"}, target : 1..3,
    t : Beh, layers : ServerLayers, other : BOOLEAN, via : {"InterceptServer", "WithInterceptor"}]
 
+\* the same decorated description dispatched again by a carrier with another
+\* transport-level interceptor T2 (a description registered with two channels,
+\* a registry entry called by two transports): the second call goes through
+\* T2, not through whatever the first call was given
+ReuseCases ==
+  [fam : {"server"}, carrier : {"registry", "inproc"}, kind : {"unary", "stream"}, target : {1, 3},
+   t : {"nil", "pass", "rewrite"}, t2 : {"nil", "pass", "rewrite"},
+   layers : {<<"pass">>, <<"rewrite", "pass">>}, other : {FALSE}, via : {"InterceptServer"}]
+  \cup [fam : {"server"}, carrier : {"registry"}, kind : {"unary", "stream"}, target : {1, 3},
+        t : {"nil", "pass", "rewrite"}, t2 : {"nil", "pass", "rewrite"},
+        layers : {<<"pass">>, <<"rewrite", "pass">>}, other : {FALSE}, via : {"WithInterceptor"}]
+
 LayerName(i) == IF i = 1 THEN "L1" ELSE IF i = 2 THEN "L2" ELSE "L3"
 
 RECURSIVE Outward(_, _)
@@ -79,6 +91,10 @@ Inward(layers, i) == IF i > Len(layers) THEN <<>> ELSE <<<<LayerName(i), layers[
 ServerChain(c) ==
   \* a stream handler called straight from the registry has no transport-level interceptor
   (IF c.carrier = "registry" /\ c.kind = "stream" THEN <<>> ELSE <<<<"T", c.t>>>>)
+  \o (IF c.via = "InterceptServer" THEN Outward(c.layers, Len(c.layers)) ELSE Inward(c.layers, 1))
+
+ServerChain2(c) ==
+  (IF c.carrier = "registry" /\ c.kind = "stream" THEN <<>> ELSE <<<<"T2", c.t2>>>>)
   \o (IF c.via = "InterceptServer" THEN Outward(c.layers, Len(c.layers)) ELSE Inward(c.layers, 1))
 
 \* does any decoration take place? (InterceptServer returns its argument when
@@ -100,6 +116,10 @@ ChkServer(o) ==
        \cup V(o.infook, "interceptor-info")
        \cup V(o.descsame, "original-descriptor-modified")
        \cup V(o.sameptr, "undecorated-layer-not-returned-as-is")
+       \cup (IF "t2" \in DOMAIN o
+             THEN V(o.word2 = WordOf(ServerChain2(o)), "second-carrier-interceptor-order-or-multiplicity")
+                  \cup V(o.result2 = ResultOf(ServerChain2(o)), "second-carrier-result-not-passed-through")
+             ELSE {})
 
 -----------------------------------------------------------------------------
 (* C17: layers[Len] is the outermost wrapper.  A layer is <<unary behaviour,
